@@ -126,7 +126,7 @@ func checkC13(ci any, info *CaseInfo) string {
 			if rv, err := gomodel.Materialize(typ, c.Pre); err == nil {
 				info.Class("prepopulated_target")
 				target.Elem().Set(rv)
-				growCaps(target.Elem(), 0)
+				growCaps(target.Elem(), func() reflect.Value { w, _ := gomodel.Materialize(typ, c.Pre); return w })
 			}
 		}
 		merr := gomodel.Assign(expected.Elem(), streamV)
